@@ -87,7 +87,18 @@ def make_cif(cfg, plan, tab, rng):
     L += ["data_gen%d" % rng.randint(1, 999)]
     L += ["_cell_length_a %s" % cellt[0][0], "_cell_length_b %s" % cellt[1][0], "_cell_length_c %s" % cellt[2][0],
           "_cell_angle_alpha %s" % cellt[3][0], "_cell_angle_beta %s" % cellt[4][0], "_cell_angle_gamma %s" % cellt[5][0],
-          "_symmetry_space_group_name_H-M '%s'" % sym]
+          ]
+    # the symbol as CIF allows a string to be written: quoted (blanks inside), quoted with a TAB between the parts, double-quoted, or as
+    # a semicolon-delimited text field on lines of its own; "with whitespace removed" is what the reader must deliver in every case
+    style_ = rng.random()
+    if style_ < 0.6 or "'" in sym:
+        L += ["_symmetry_space_group_name_H-M '%s'" % sym]
+    elif style_ < 0.75:
+        L += ["_symmetry_space_group_name_H-M '%s'" % (sym.replace(" ", "\t", 1) if " " in sym else sym + "\t")]
+    elif style_ < 0.85:
+        L += ['_symmetry_space_group_name_H-M "%s"' % sym]
+    else:
+        L += ["_symmetry_space_group_name_H-M", ";", sym, ";"]
     disp = {}
     if cfg["typeloop"] != "absent":
         L += ["loop_", "_atom_type_symbol", "_atom_type_scat_dispersion_real", "_atom_type_scat_dispersion_imag"]
